@@ -568,6 +568,8 @@ def run_real(spec, req):
             for _ in range(spec["renders"]):
                 out = container.render()
                 res["outs"].append(json.loads(json.dumps(out)))
+            res["dicts"] = {"flow_dict": list(container.uuid_dict.flow_dict.items()),
+                            "group_dict": list(container.uuid_dict.group_dict.items())}
         except RapidProTriggerError as e:
             res["error"] = {"type": "triggerUnknownFlow", "msg": str(e)}
         except ValueError as e:
@@ -706,6 +708,14 @@ def check_case(spec, req, model, real):
         if i > 0 and out != real["outs"][i - 1]:
             viol.append({"what": "repeated render() changed the output", "render": i + 1,
                          "before": scan_output(real["outs"][i - 1]), "after": (occs, groups)})
+
+    # the dictionaries left behind (order = insertion order; includes names that are not rendered)
+    if real.get("dicts") and renders and "ok" in renders[-1] and len(real["outs"]) == len(renders):
+        for key in ("flow_dict", "group_dict"):
+            rd = [(n, cn(u)) for n, u in real["dicts"][key]]
+            md = [(n, canon_model_uid(u, cm)) for n, u in renders[-1]["ok"][key]]
+            if rd != md:
+                ties.append({"what": f"uuid_dict.{key} after the last render differs from the model", "real": rd, "model": md})
 
     # rejected when the property demands it / accepted otherwise
     lost_conflict = []
